@@ -724,6 +724,22 @@ def part_dq(chk, efs, run):
                         "reference encryptor used method " + str(l.get("method"))))
         elif (f[1] == "1") != in_sig:
             bad.append((describe(ef), leaf_key(l), l["kind"], "dq_in_finding_class = " + f[1], "recorded signature of the leaf: %r" % sig))
+    # the method --show-encryption / QPDF::isEncrypted report for attachments against Table 20's /EFF rule (V 4 and 5)
+    seen = set()
+    for (ef, l), o in zip(meta, out):
+        f = o.split()
+        if id(ef) in seen or len(f) != 3 or ef.V < 4 or not hasattr(ef, "impl_methods"):
+            continue
+        seen.add(id(ef))
+        got = {"n": "0", "r": "1", "a": "2", "3": "3"}.get(ef.impl_methods[2], ef.impl_methods[2])
+        classes.add(("file-method", ef.V, f[2], got, "EFF" if b"EFF" in ef.encdict else ""))
+        if f[2] != "?" and got != f[2]:
+            eff = ef.encdict.get(b"EFF")
+            gov = eff.b if isinstance(eff, Name) else ef.stmf
+            sig = SIG_PREFIX + "cfm-none-explicit" if (ef.plan.get("none_style") == "explicit" and ef.cf.get(gov) == "0") else ""
+            chk.violation({"kind": "property-fails-on-implementation", "part": "dq-rule",
+                           "what": "the crypt filter method reported for attachments (QPDF::isEncrypted file_method) is %s, Table 20 (/EFF, by default /StmF) gives %s" % (got, f[2]),
+                           "case": describe(ef)}, signature=sig)
     if bad:
         t = bad[0]
         chk.violation({"kind": "correspondence-broken", "correspondence": "corr:C06:dq-rule", "differing_cases": len(bad), "first_case": t[0], "leaf": t[1],
@@ -806,6 +822,8 @@ def judge_files(chk, efs, run, drv, work, rng, perms_spec=None, cli=True):
                 got += " " + im["perms"] + " " + im["upw"] + " " + im["padded"] + " warn=" + ("perms" if "/Perms" in im["warnings"] else "-")
                 mod += " " + mf[14] + " " + mf[15] + " " + mf[10] + " warn=" + ("perms" if "perms" in mf[13] else "-")
                 state_of.setdefault(id(ef), (mf[1:13], role))
+                if not hasattr(ef, "impl_methods"):
+                    ef.impl_methods = im["methods"]
         else:
             got = "err " + im.get("code", "?")
             mod = " ".join(mf[:2])
